@@ -22,8 +22,8 @@ from pathlib import Path
 VERIF = Path(__file__).resolve().parent.parent
 SPEC = VERIF / 'spec'
 HARNESS = VERIF / 'harness'
-EVIDENCE = VERIF / 'evidence'
-REPLAYS = VERIF / 'out' / 'replays'
+EVIDENCE = Path(os.environ.get('VERIF_EVIDENCE_DIR') or VERIF / 'evidence')
+REPLAYS = Path(os.environ.get('VERIF_OUT_DIR') or VERIF / 'out') / 'replays'
 REPO = os.environ.get('VERIF_REPO', '/repo')
 PY = os.environ.get('VERIF_PYTHON', '/venv/bin/python')
 TLA_CP = '/opt/veriftools/tla/tla2tools.jar:/opt/veriftools/tla/CommunityModules-deps.jar'
